@@ -136,10 +136,12 @@ def probe_then_sign_sessions(rng, tables):
         algo = algos[0]
         for res_p in (0, 1):
             for res_s in (0, 1, 2):
-                for variant in ("same", "other-key", "other-algo", "bad-signature", "probe-twice"):
+                for variant in ("same", "other-key", "other-key-same-algo", "other-algo", "bad-signature", "probe-twice"):
                     if variant == "other-algo" and len(algos) < 2:
                         continue
                     if variant in ("other-key", "other-algo", "probe-twice") and (res_p, res_s) not in ((0, 2), (1, 1), (0, 0)):
+                        continue
+                    if variant == "other-key-same-algo" and algo != "ecdsa-sha2-nistp256":
                         continue
 
                     def mk(sid, key=key, algo=algo, algos=algos, res_p=res_p, res_s=res_s, variant=variant):
@@ -148,6 +150,9 @@ def probe_then_sign_sessions(rng, tables):
                         steps = [L.pk_step(gen, sid, user, key, algo, False, res_p)]
                         if variant == "same":
                             steps.append(L.pk_step(gen, sid, user, key, algo, True, res_s))
+                        elif variant == "other-key-same-algo":
+                            # a DIFFERENT key of the SAME algorithm: its verdict is its own, not the probe's
+                            steps.append(L.pk_step(gen, sid, user, L.second_key_same_algorithm(), algo, True, res_s))
                         elif variant == "other-key":
                             other = [k for k in keys if k[0] is not key][0]
                             steps.append(L.pk_step(gen, sid, user, other[0], other[1][0], True, res_s))
@@ -164,6 +169,30 @@ def probe_then_sign_sessions(rng, tables):
                         return steps
 
                     makers.append((False, mk))
+    return makers
+
+
+def rekey_sessions(rng, tables):
+    """the signed data binds the SESSION ID - the first exchange hash - on both sides, also after key re-exchanges:
+    a signature over the first hash still authenticates, one over the latest exchange hash (different after a
+    re-key) does not"""
+    makers = []
+    for key, algos in L.client_keys():
+        algo = algos[0]
+        for nrekey in (0, 1, 2):
+            for bind, res in (("session_id", 0), ("H", 0), ("session_id", 1)):
+                def mk(sid, key=key, algo=algo, nrekey=nrekey, bind=bind, res=res):
+                    gen = L.Gen(rng, "c14", tables)
+                    user = gen.user
+                    steps = [L.mk_step(gen, 5, L.S(b"ssh-userauth"))]
+                    steps += [L.rekey_step(gen) for _ in range(nrekey)]
+                    steps.append(L.lazy_pk_step(gen, user, key, algo, res, bind=bind))
+                    steps.append(L.lazy_pk_step(gen, user, key, algo, 0, bind="session_id"))
+                    for s_ in steps:
+                        s_["meta"]["scenario"] = "rekey-then-sign:%d:%s" % (nrekey, bind)
+                    return steps
+
+                makers.append((False, mk))
     return makers
 
 
@@ -271,7 +300,8 @@ def run(ctx):
                 "success/partial/failure/odd codes; plus both GSS methods walked to the end for every callback result, and key "
                 "probes followed by signed requests for the same / another key / another algorithm / a bad signature with "
                 "the application's answer varying per call (probe: success|partial, then success|partial|failure); "
-                "OpenSSH certificate keys (signature over the certificate as sent / over the bare subject key / made for another "
+                "signed requests after 0-2 key re-exchanges, bound to the session id (first exchange hash) or to the latest "
+                "exchange hash; OpenSSH certificate keys (signature over the certificate as sent / over the bare subject key / made for another "
                 "certificate of the same key; in-session replay with the certificate swapped); "
                 "cross-user interleavings around an outstanding interactive query / key probe / GSS exchange (user A starts, "
                 "optionally fails another method, user B probes / queries / asks, the outstanding exchange completes). "
@@ -283,10 +313,13 @@ def run(ctx):
               "stub GSS context (no GSSAPI library in the sandbox): accept/check_mic outcomes are inputs")
     ctx.assume("SigScheme: unforgeability enters only through theorem replayed_signature_rejected's hypothesis")
     tables = L.gen_tables(ctx)
+    L.check_source_facts(ctx)
     ctx.build(extra_modules=["PV.Model.AuthServerDriver"])
     makers = gss_sessions(ctx.rng, tables)
     makers += probe_then_sign_sessions(ctx.rng, tables)
     makers += certificate_sessions(ctx.rng, tables)
+    rk = rekey_sessions(ctx.rng, tables)
+    makers += rk if ctx.thorough else [m for i, m in enumerate(rk) if i % 9 in (3, 4, 6, 7)] + ctx.rng.sample(rk, 4)
     om = outstanding_sessions(ctx.rng, tables)
     makers += om if ctx.thorough else ctx.rng.sample(om, 40)
     makers += L.profile_makers(ctx, "c14", 600 if ctx.thorough else 110, tables)
